@@ -119,6 +119,13 @@ func loadPkg(dir string) *pkgInfo {
 		return p
 	}
 	abs := filepath.Join(repo, dir)
+	if strings.Contains(strings.SplitN(dir, "/", 2)[0], ".") {
+		// a package of a third-party module (full_imports): read it from the module cache at the
+		// version go.mod requires
+		if d, ok := moduleCacheDir(dir); ok {
+			abs = d
+		}
+	}
 	ents, err := os.ReadDir(abs)
 	if err != nil {
 		broken("package directory %s: %v", dir, err)
@@ -166,6 +173,53 @@ func loadPkg(dir string) *pkgInfo {
 	pi.pkg, _ = conf.Check(dir, pi.fset, pi.files, pi.info)
 	pkgCache[dir] = pi
 	return pi
+}
+
+// moduleCacheDir resolves an import path of a required module to its directory in the module cache.
+func moduleCacheDir(path string) (string, bool) {
+	gm, err := os.ReadFile(filepath.Join(repo, "go.mod"))
+	if err != nil {
+		return "", false
+	}
+	best, ver := "", ""
+	for _, l := range strings.Split(string(gm), "\n") {
+		f := strings.Fields(strings.TrimSpace(l))
+		if len(f) >= 2 && f[0] == "require" {
+			f = f[1:]
+		}
+		if len(f) < 2 || !strings.HasPrefix(f[1], "v") {
+			continue
+		}
+		if (path == f[0] || strings.HasPrefix(path, f[0]+"/")) && len(f[0]) > len(best) {
+			best, ver = f[0], f[1]
+		}
+	}
+	if best == "" {
+		return "", false
+	}
+	cache := os.Getenv("GOMODCACHE")
+	if cache == "" {
+		gp := os.Getenv("GOPATH")
+		if gp == "" {
+			home, _ := os.UserHomeDir()
+			gp = filepath.Join(home, "go")
+		}
+		cache = filepath.Join(strings.Split(gp, string(os.PathListSeparator))[0], "pkg", "mod")
+	}
+	var esc strings.Builder
+	for _, r := range best {
+		if r >= 'A' && r <= 'Z' {
+			esc.WriteByte('!')
+			esc.WriteRune(r + 'a' - 'A')
+		} else {
+			esc.WriteRune(r)
+		}
+	}
+	d := filepath.Join(cache, esc.String()+"@"+ver, strings.TrimPrefix(strings.TrimPrefix(path, best), "/"))
+	if fi, err := os.Stat(d); err == nil && fi.IsDir() {
+		return d, true
+	}
+	return "", false
 }
 
 func (pi *pkgInfo) findFunc(name string) *ast.FuncDecl {
